@@ -334,3 +334,27 @@ def _prune_inputs(w):
     for k in list(w["inputs"]):
         if k not in used:
             del w["inputs"][k]
+
+
+def stray_threads(before):
+    """Non-daemon threads started since `before` (a set from threading.enumerate()) that are still alive and do not
+    belong to the simulator: a process that keeps one can never exit, so a pool waiting for that worker hangs.
+    They are stopped (profiler threads have a stop event) so that they do not outlive the case."""
+    import threading
+    import time as _t
+
+    out = []
+    for t in threading.enumerate():
+        if t in before or t.daemon or not t.is_alive() or t.name.startswith("sim-") or t is threading.current_thread():
+            continue
+        t.join(0.05)  # a thread that is just finishing is not a leak
+        if not t.is_alive():
+            continue
+        target = getattr(t, "_target", None)
+        out.append(getattr(target, "__qualname__", None) or t.name)
+        owner = getattr(target, "__self__", None)
+        ev = getattr(owner, "stop_event", None)
+        if ev is not None:
+            ev.set()
+            t.join(1.0)
+    return sorted(out)
